@@ -229,6 +229,12 @@ structure View where
   sent : Bool → List String
 
 def runOp (v : View) (st : St) (toks : List String) : St × List String :=
+  -- configuration shape: a 9th token 0|1|2 = the engine also tracks an exchange that is not traded (sorting before the
+  -- mocked one: an index shape of the real system only; no op can name it, the composed model has no such exchange)
+  let toks := match toks with
+    | ["sys", feed, trading, k, quote, base, fee, lat, x] =>
+      if x == "0" || x == "1" || x == "2" then ["sys", feed, trading, k, quote, base, fee, lat] else toks
+    | _ => toks
   match toks with
   | ["sys", feed, trading, k, quote, base, fee, lat] =>
     match parseMode? feed, parseOnOff? trading, k.toNat?, parseRat? quote, parseRat? base, parseRat? fee, lat.toNat? with
@@ -398,6 +404,11 @@ def specObserve (s : OSt) : List String × List LEv :=
 def spec : Drv OSt where
   init := OSt.init
   step s toks :=
+    -- configuration shape: 9th token 0|1|2 (a tracked-but-not-traded exchange; no op names it, the script says nothing about it)
+    let toks := match toks with
+      | ["sys", feed, trading, k, quote, base, fee, lat, x] =>
+        if x == "0" || x == "1" || x == "2" then ["sys", feed, trading, k, quote, base, fee, lat] else toks
+      | _ => toks
     match toks with
     | ["sys", feed, trading, k, quote, base, fee, lat] =>
       match parseMode? feed, parseOnOff? trading, k.toNat?, parseRat? quote, parseRat? base, parseRat? fee, lat.toNat? with
